@@ -173,6 +173,89 @@ fn retry(args: &Args, acc: &mut Acc, seed: u64, verbose: bool) {
     }
 }
 
+/// scenario `held` (SER, 1 run in 5 of the `retry` workload; kinds with reservations): the buffer is full because BUFFER_SIZE - 1 events are buffered and the last slot is
+/// RESERVED by a thread that does not go on until everybody else has finished -- "all slots taken by events and reserved slots" is exactly when a send has to be
+/// rejected, and the rejection has to come promptly (the conductor's stall verdict: the senders spin while the holder waits for them), through every entry point.
+/// Afterwards the reservation is sent, everything is delivered exactly once and the emptied channel accepts BUFFER_SIZE events again.
+fn held(args: &Args, acc: &mut Acc, seed: u64, verbose: bool) {
+    let mut rng = Rng::new(seed);
+    let ks: Vec<Kind> = kinds(args.only.as_deref()).into_iter().filter(|k| k.has_reserve()).collect();
+    if ks.is_empty() { return retry(args, acc, seed, verbose) }
+    let kind = *rng.pick(&ks);
+    let cfgs: Vec<(usize, usize)> = chan::cfgs_for(kind, false).into_iter().filter(|c| c.0 <= 16).collect();
+    let (n, m) = *rng.pick(&cfgs);
+    let nsend = 1 + rng.below(3) as usize;
+    let mut es = entries_for(kind); es.retain(|e| !matches!(e, Entry::Derived | Entry::SendAsyncSuspended));
+    let scripts: Vec<Vec<Entry>> = (0..nsend).map(|_| (0..1 + rng.below(3)).map(|_| *rng.pick(&es)).collect()).collect();
+    let mut rc = RunCfg::ser(seed, draw_strategy(&mut rng, nsend + 1, super::c01::PAUSE_SITES, 200));
+    rc.trace = verbose && args.get("trace").is_some();
+    let ch = chan::make(kind, n, m, false).expect("instantiation");
+    let mut strm = ch.create_stream();
+    let cfgj = J::obj().with("kind", J::s(kind.name())).with("N", J::i(n as i64)).with("M", J::i(m as i64)).with("scenario", J::s("held: N-1 events buffered + 1 slot reserved and kept; other threads send"))
+        .with("senders", J::Arr(scripts.iter().map(|s| J::s(format!("{:?}", s.iter().map(|e| e.name()).collect::<Vec<_>>()))).collect()));
+    let mut problems: Vec<(String, String)> = Vec::new();
+    let mut expected: Vec<u64> = Vec::new();
+    for i in 0..n as u64 - 1 { let id = 0x100 + i; if send_via(&*ch, Entry::Send, id) == SendRes::Ok { expected.push(id) } else { problems.push(("rejected_with_room".into(), format!("send #{i} into the empty channel of {n} slots was rejected"))) } }
+    let resv = ch.reserve();
+    if resv.is_none() { problems.push(("rejected_with_room".into(), format!("reserve_slot was refused with {} of {n} slots taken", n - 1))) }
+    let answers: Arc<std::sync::Mutex<Vec<(usize, Entry, SendRes)>>> = Arc::new(std::sync::Mutex::new(Vec::new()));
+    let sent_reserved = Arc::new(AtomicU32::new(0));
+    if let Some(r) = resv {
+        ch.fill(&r, 0x1FF); expected.push(0x1FF);
+        let mut bodies: Vec<Body> = Vec::new();
+        { let (ch, sr) = (ch.clone(), sent_reserved.clone());
+          bodies.push(Box::new(move || {
+              // the holder: does not go on before everybody else has finished (or waits for it: that is the stall the conductor reports)
+              sched::gate_wait();
+              let mut tries = 0u32;
+              while !ch.try_send_reserved(&r) { tries += 1; sched::spin(); if tries > 100_000 { return } }
+              sr.store(1, SeqCst); sched::op_done();
+          })); }
+        for (t, sc) in scripts.iter().enumerate() {
+            let (ch, sc, ans) = (ch.clone(), sc.clone(), answers.clone());
+            bodies.push(Box::new(move || { for (k, e) in sc.into_iter().enumerate() { let r = send_via(&*ch, e, 0x1000 + ((t as u64) << 8) + k as u64); ans.lock().unwrap().push((t, e, r)); sched::op_done() } }));
+        }
+        let rep = sched::run(&rc, bodies);
+        acc.account(&rep);
+        acc.count(&format!("held_reservation_runs[{}]", kind.name()), 1);
+        if rep.inconclusive() { if acc.notes.len() < 10 { acc.notes.push(format!("inconclusive {:?}: {}", rep.outcome, cfgj.to_string())) } std::mem::forget(ch); return }
+        for p in ch.take_problems() { problems.push(("rejected_input_changed".into(), p)) }
+        for (t, p) in &rep.panics { problems.push(("panic".into(), format!("thread t{t} panicked: {p}"))) }
+        if let Outcome::Stall { spinners, .. } = &rep.outcome {
+            problems.push(("blocked".into(), format!("a send into a full buffer (one slot reserved and not yet sent) was neither rejected nor accepted: it waits ({}) while the holder of the reservation waits for it to return", spinners.iter().map(|(t, s)| format!("t{t}@{}", sched::site_name(*s))).collect::<Vec<_>>().join(", "))));
+            std::mem::forget(ch.clone());
+        } else {
+            let ans = answers.lock().unwrap().clone();
+            acc.count("sends_rejected_while_a_reservation_filled_the_buffer", ans.iter().filter(|a| a.2 == SendRes::Full).count() as u64);
+            for (t, e, r) in &ans { if *r == SendRes::Ok { problems.push(("accepted_beyond_capacity".into(), format!("sender {t}: {} was accepted although {} events were buffered and the last of the {n} slots was reserved", e.name(), n - 1))) } }
+            if sent_reserved.load(SeqCst) != 1 { problems.push(("reserved_never_sent".into(), "try_send_reserved never answered true although nothing else was going on".into())) }
+            if problems.is_empty() {
+                let w = chan::noop_waker();
+                let mut got: Vec<u64> = Vec::new();
+                while let Poll::Ready(Some(it)) = strm.poll(&w) { got.push(it.id); drop(it); if got.len() > 4 * n + 8 { break } }
+                if got != expected { problems.push(("conservation".into(), format!("the stream yielded {:?}; buffered + reserved were {:?} (a rejected send must not deliver anything)", got, expected))) }
+                drop(strm);
+                if problems.is_empty() { if let Err(e) = probe_capacity(&ch) { problems.push(("capacity_leak".into(), e)) } else { acc.count("capacity_probes_ok", 1) } }
+            }
+            acc.nontrivial(mix(rep.sched_hash, kind as u64 * 31 + n as u64 + 0x4e1d));
+        }
+        if !problems.is_empty() {
+            let sigs: Vec<J> = problems.iter().map(|p| J::obj().with("anomaly", J::s(&p.0)).with("kind", J::s(kind.name())).with("workload", J::s("held"))).collect();
+            let v = J::obj().with("what", J::s(problems.iter().map(|p| p.1.clone()).take(5).collect::<Vec<_>>().join("; "))).with("sigs", J::Arr(sigs)).with("config", cfgj).with("strategy", J::s(rc.strategy.describe())).with("outcome", rep.outcome_json());
+            file_violation(args, acc, seed, verbose, v);
+        }
+        return
+    }
+    if !problems.is_empty() {
+        let sigs: Vec<J> = problems.iter().map(|p| J::obj().with("anomaly", J::s(&p.0)).with("kind", J::s(kind.name())).with("workload", J::s("held"))).collect();
+        file_violation(args, acc, seed, verbose, J::obj().with("what", J::s(problems.iter().map(|p| p.1.clone()).take(5).collect::<Vec<_>>().join("; "))).with("sigs", J::Arr(sigs)).with("config", cfgj));
+    }
+}
+
+fn retry_or_held(args: &Args, acc: &mut Acc, seed: u64, verbose: bool) {
+    if args.lane == Lane::Ser && seed % 5 == 0 { held(args, acc, seed, verbose) } else { retry(args, acc, seed, verbose) }
+}
+
 pub fn run(args: &Args, acc: &mut Acc) {
-    if args.get("workload") == Some("cycles") { run_loop(args, acc, cycles) } else { run_loop(args, acc, retry) }
+    if args.get("workload") == Some("cycles") { run_loop(args, acc, cycles) } else { run_loop(args, acc, retry_or_held) }
 }
